@@ -799,11 +799,22 @@ fn r_stmt(r: &mut Rendered, st: &St) {
         S::Try { expr, returns, catches } => {
             r.enter(st.id, "Try");
             r.t("try");
-            r_expr(r, expr);
-            if let Some((ps, b)) = returns {
-                r.t("returns");
-                r_params(r, ps);
-                r_stmt(r, b);
+            match returns {
+                Some((ps, b)) if ps.is_empty() => {
+                    // a success block without a `returns` clause: the parser reads `expr { .. }` as a call with a block
+                    // attached (FunctionCallBlock), so the block hangs below an expression
+                    r.enter(st.id | (1 << 62), "FunctionCallBlock");
+                    r_expr(r, expr);
+                    r_stmt(r, b);
+                    r.leave();
+                }
+                Some((ps, b)) => {
+                    r_expr(r, expr);
+                    r.t("returns");
+                    r_params(r, ps);
+                    r_stmt(r, b);
+                }
+                None => r_expr(r, expr),
             }
             for c in catches {
                 r.t("catch");
